@@ -312,6 +312,13 @@ def filterTargetsUnrepaired (u : User) (qd : QD) (q : Query) (inv : Inventory) :
 def accessGranted (u : User) (required : String) (o : Obj) : Bool :=
   hasPermission u required && pfIso (permissionFilters u required) o == some true
 
+/-- A joined object (objectqueryhandler.cpp:240-313: `host` of a service, `command_endpoint`, `check_period`, … of a
+    checkable) is serialized into the response only under the permission `objects/query/<type of the JOINED
+    object>` (:262-267) and that permission's filter evaluated on the joined object itself (:279-299).  The
+    verdict is cached per joined object (:277, :291); a function of the object needs no cache. -/
+def joinIncluded (u : User) (joined : Obj) : Bool :=
+  accessGranted u ("objects/query/" ++ joined.type) joined
+
 /-! ## The object handlers around GetFilterTargets (second, narrower layer of the correspondence) -/
 
 /-- objectqueryhandler.cpp:117-119 (`query`), modifyobjecthandler.cpp:42-44 (`modify`),
@@ -378,5 +385,57 @@ def permissionTableOk (table : List String) : Bool :=
 
 /-- CheckPermission at the head of these handlers: no matching entry ⇒ the request fails (404). -/
 def grantStatus (u : User) (perm : String) : Nat := if hasPermission u perm then 200 else 404
+
+/-! ## Authentication (lib/remote/apiuser.cpp:13-58): to which ApiUser is a request attributed? -/
+
+structure AUser where
+  name : String
+  password : String
+  clientCN : String
+  deriving DecidableEq, Repr
+
+/-- `FindFirstOf(c)` + the two `SubStr`s (:26, :33): the text before and after the first `c`. -/
+def splitAtFirst (c : Char) : List Char → Option (List Char × List Char)
+  | [] => none
+  | x :: xs => if x == c then some ([], xs) else (splitAtFirst c xs).map fun ab => (x :: ab.1, ab.2)
+
+/-- :26-40: user name and password presented by an `Authorization` header.  `decoded`: what `Base64::Decode`
+    (OpenSSL) makes of the text after the first blank — `none`: it throws; consulted only for the scheme
+    `Basic`.  Outer `none`: the exception leaves GetByAuthHeader.  No colon, another scheme, no blank: both
+    empty. -/
+def credentialsOf (header : String) (decoded : Option String) : Option (String × String) :=
+  match splitAtFirst ' ' header.toList with
+  | some (scheme, _) =>
+    if String.ofList scheme == "Basic" then
+      match decoded with
+      | none => none
+      | some cred =>
+        match splitAtFirst ':' cred.toList with
+        | some (u, p) => some (String.ofList u, String.ofList p)
+        | none => some ("", "")
+    else some ("", "")
+  | none => some ("", "")
+
+inductive AuthResult
+  | user (u : AUser)
+  | nobody
+  | throws
+  deriving DecidableEq, Repr
+
+/-- ApiUser::GetByAuthHeader (:24-58): the user of that name (:42), refused when there is none or the GIVEN
+    password is empty (:49-50) or it differs from the configured one (:51-52, Utility::ComparePasswords is
+    equality in constant time). -/
+def authByHeader (users : List AUser) (header : String) (decoded : Option String) : AuthResult :=
+  match credentialsOf header decoded with
+  | none => .throws
+  | some (username, password) =>
+    match users.find? (·.name == username) with
+    | none => .nobody
+    | some u => if password == "" then .nobody else if password == u.password then .user u else .nobody
+
+/-- ApiUser::GetByClientCN (:13-22) returns the first ApiUser, in the order the type enumerates its objects, whose
+    `client_cn` equals the CN; which one that is among several is the registry's business, so the model yields the
+    candidates. -/
+def authByCN (users : List AUser) (cn : String) : List AUser := users.filter (·.clientCN == cn)
 
 end Icinga.C18
